@@ -204,6 +204,9 @@ def build() -> Check:
         seg = t.events[t.events.index(puts[-1]) + 1: t.events.index(waits[-1])]
         if not any(e.kind == "EV_ISSET" and "checkpointing_failed" in e.data["ev"] for e in seg):
             bad.append(("between enqueueing and the unbounded wait the failure flag is not read again (check-then-act window)", t))
+        elif any(e.kind == "EV_ISSET" and "checkpointing_failed" in e.data["ev"] and e.data.get("result") for e in seg):
+            # read again, seen raised - and the caller still goes to sleep on its own event, which nobody will ever set
+            bad.append(("after enqueueing, the failure flag is seen raised and the caller waits on its own completion event all the same", t))
     ck.floor("sync_producer_paths", n_sync, 2)
     ck.ob("R2.handshake-producer-recheck-after-put", c_cc, not bad, bad[0][0] if bad else "")
     ck.ob("R2.producer-checks-flag-before-put", c_cc, not pre, pre[0][0] if pre else "")
